@@ -39,9 +39,9 @@ Definition judge (c : case) : verdict :=
     match body c, find_entry (tname c) packets with
     | Some bs, Some (Fragment _ _ decl _) =>
         match dec_L LP decl (mkctx (cv c) (cb c)) bs, outcome c with
-        | Ok (_, []), OError =>
+        | Ok (t, []), OError =>
             (* the one known divergence on complete bodies: an empty byte array at the very end (C04-2 / C03-2) *)
-            if is_lenpref_bytes (last_prim decl (mkctx (cv c) (cb c))) &&
+            if is_lenpref_bytes (last_prim_v decl (mkctx (cv c) (cb c)) t) &&
                match rev bs with 0 :: _ => true | _ => false end then VOk else VMismatch
         | _, _ => VOk
         end
